@@ -263,8 +263,18 @@ func runCrashCase(part string, c *CrashCase) (outcome string, err error) {
 		return "", err
 	}
 	if perr != nil {
+		// a host that goes on regardless gets errors, not panics
 		outcome = "rejected"
-		return outcome, nil
+		obj := objs[len(objs)-1]
+		call("Dump after a failed Prepare", func() { _ = r.E.Dump() })
+		call("Run after a failed Prepare", func() { _, _ = r.E.Run(obj) })
+		call("Execute after a failed Prepare", func() {
+			out, xerr := r.E.Execute(obj)
+			if xerr == nil && out == nil && err == nil {
+				err = fmt.Errorf("Execute after a failed Prepare returned neither an object nor an error")
+			}
+		})
+		return outcome, err
 	}
 	outcome = "prepared"
 	for round := 0; round < 2; round++ {
